@@ -33,7 +33,7 @@ MIN_BUDGET = 120
 HANG_IS_VIOLATION = False     # hangs are detected per site, inside run()
 
 TIERS = {
-    'quick': {'runs': 1500, 'classes': 8, 'budget_s': 60},
+    'quick': {'runs': 1200, 'classes': 8, 'budget_s': 60},
     'thorough': {'runs': 80000, 'classes': 32, 'budget_s': 1100},
 }
 
@@ -59,7 +59,9 @@ class SiteTimeout(Exception):
 def gen_case(streams, tier):
     g = streams['gen']
     cfg = gen.make_cfg(nets=(2, 16), class_pool=['bit', 'small', 'mid', 'w64'],
-                       mem_wide_aw=0.0, regs=(0, 3), mems=(0, 2), async_prob=0.3)
+                       mem_wide_aw=0.0, regs=(0, 3), mems=(0, 2), async_prob=0.3,
+                       names=g.choice(['plain', 'awkward']), awk_internal=0.3,
+                       awk_exclude=('tmp',))
     script = gen.gen_script(g, cfg)
     f = streams['faults']
     sites = enumerate_sites(script, f)
@@ -658,6 +660,10 @@ def run(case, res):
     for si, site in enumerate(case['sites']):
         rng = random.Random((sched.get('hash_seed', 0) * 1000003 + si) & 0xffffffffffff)
         bb = build(script, perm_seed=sched.get('perm_seed'))
+        if si % 3 == 1:
+            # check, then mutate, then check: the block has already passed once
+            bb.block.sanity_check()
+            res.probes.hit('fault_after_passing_check')
         want = inject(bb, script, site, rng)
         if want is None:
             res.probes.hit('site_not_applicable')
